@@ -408,6 +408,13 @@ def rule_stacked_cells_full_width(ctx, rid):
         if sd and sd[0] == "stmt" and "agg" in sd[3]["rv"]:
             pl = op_place(sd[3]["rv"]["ops"][0])
     require(pl is not None and is_bare(pl), "col_width must be stored as Some(local)")
+    # `let w = match vertical {..}; cell.col_width = Some(w)`: follow plain copies to the local the arms assign
+    for _ in range(6):
+        sd = b.single_def(pl["l"])
+        src = op_place(sd[3]["rv"]["use"]) if sd and sd[0] == "stmt" and "use" in sd[3]["rv"] else None
+        if src is None or not is_bare(src):
+            break
+        pl = src
     def vert_of(dbb):
         """truth of the bool *parameter* (`vertical`) governing block dbb, or None"""
         vert = None
